@@ -1,12 +1,12 @@
-CONSTANT MaxGen = 3
+CONSTANT MaxGen = 4
 CONSTANT NDig = 3
-CONSTANT MaxRevs = 5
+CONSTANT MaxRevs = 6
 CONSTANT MaxSteps = 6
 CONSTANT Reps <- One
 CONSTANT Depths = {1, 2, 3}
 CONSTANT Configs <- CfgAll
 CONSTANT Feed = FALSE
-CONSTANT Lean = TRUE
+CONSTANT Lean = FALSE
 CONSTANT GoodChains <- MCGood
 CONSTANT BadChains <- MCBad
 SPECIFICATION SimSpec
